@@ -380,6 +380,34 @@ func check(id, tier string) int {
 				okRuns = 5
 			}
 		}
+		nondet := ""
+		if okRuns > 0 && okRuns < 5 && v.Replay != nil && v.Replay["noreplay"] == nil && v.Replay["min_repro"] == nil {
+			// the same single case fails in some replays and passes in others: every replay runs the same
+			// deterministic harness on the same input, so the code under test itself behaves differently from run
+			// to run (map iteration order, real goroutines, randomness). Ten more replays; believed when at
+			// least 3 of the 15 show it.
+			alt, _ := v.Replay["alt_sig"].(string)
+			more := 0
+			var rw sync.WaitGroup
+			oks := make([]bool, 10)
+			for k := 0; k < 10; k++ {
+				rw.Add(1)
+				go func(k int) {
+					defer rw.Done()
+					oks[k] = replaySig(bin, sp, id, rf, 5+k, sig, alt)
+				}(k)
+			}
+			rw.Wait()
+			for _, o := range oks {
+				if o {
+					more++
+				}
+			}
+			if okRuns+more >= 3 {
+				nondet = fmt.Sprintf("nondeterministic in the code under test: %d of 15 replays of the same case", okRuns+more)
+				okRuns = 5
+			}
+		}
 		historyDependent := false
 		if okRuns == 0 && v.Replay != nil && v.Replay["noreplay"] == nil {
 			// the case does not fail when executed alone in a fresh process. It may depend on what the
@@ -412,6 +440,10 @@ func check(id, tier string) int {
 			b, _ := json.MarshalIndent(doc, "", " ")
 			os.WriteFile(rf, b, 0o644)
 			lines = append(lines, fmt.Sprintf("VIOLATION property=%s replay=%s sig=%s [depends on the cases the worker ran before it] %s", id, rf, sig, oneline(v.Detail, 300)))
+			continue
+		}
+		if nondet != "" {
+			lines = append(lines, fmt.Sprintf("VIOLATION property=%s replay=%s sig=%s [%s] %s", id, rf, sig, nondet, oneline(v.Detail, 300)))
 			continue
 		}
 		lines = append(lines, fmt.Sprintf("VIOLATION property=%s replay=%s sig=%s %s", id, rf, sig, oneline(v.Detail, 300)))
